@@ -18,7 +18,8 @@ def main():
                     "the last, result file written or not). Postconditions: error before any docker.run iff a file is missing or the directories differ; filelist.txt = "
                     "/data/<name> per file in order; image = metadata image if present else image:tag; volumes = package at /scripts (ro) and /results (rw), data dir at /data/ (ro), "
                     "backend cache volume; container failure propagates and nothing is returned; missing result raises; success returns the copied file in the requested directory; "
-                    "the temporary directory is gone in every case")
+                    "the temporary directory is gone in every case; two or three queries in a row on ONE dataset object (each with or without docker metadata, the first "
+                    "succeeding or failing): every run uses its own query's image, else the dataset's image:tag")
     cov["stubs"] = ["python_on_whales (stubs/py): docker.run records its arguments, reads filelist.txt from the /scripts mount and follows the scenario",
                     "tempfile.TemporaryDirectory replaced by a deterministic factory (CrossHair patches random); tempfile._get_default_tempdir deterministic",
                     "executor._copy_template_file stubbed (jinja2 cannot execute under CrossHair); rendering is C02/C14"]
